@@ -26,6 +26,10 @@ THEOREMS = [
     'CpProofs.C14.C14_sweep_abort_witness',
     'CpProofs.C14.C14_damaged_partial',
     'CpProofs.C14.C14_except_clause_table',
+    'CpProofs.C14.run_inv',
+    'CpProofs.C14.C14_no_fixation_history',
+    'CpProofs.C14.futureNot_of_drawn',
+    'CpProofs.C14.futureNot_of_stored',
 ]
 TRUSTED_BASE = [
     'pickle is a parameter of the model: the torn-file theorem is relative to the contract "a proper prefix of a '
